@@ -287,8 +287,8 @@ func (p *proc) kill() {
 
 func (p *proc) output() string {
 	s := p.out.String()
-	if len(s) > 400 {
-		s = s[:400] + "..."
+	if len(s) > 1500 {
+		s = s[:300] + " ... " + s[len(s)-1200:]
 	}
 	return strings.TrimSpace(s)
 }
